@@ -127,7 +127,7 @@ func checkC19(c *Ctx) {
 	}
 	builtin := schema.BuiltinSchema()
 	cdi.SetSpecValidator(builtin) // the cdi tool installs --schema builtin by default
-	c.RunCases("pop", c.pick(40, 1500), 6, func(cs *Case) {
+	c.RunCases("pop", c.pick(120, 1500), 6, func(cs *Case) {
 		r := cs.R
 		root := filepath.Join(c.Scratch, sanitize(cs.Name))
 		must(os.MkdirAll(root, 0o755))
@@ -155,6 +155,23 @@ func checkC19(c *Ctx) {
 					c.Count("populations_with_a_file_only_the_schema_refuses", 1)
 					break
 				}
+			}
+		}
+		if chance(r, 15) {
+			// a directory listed twice with another one in between, and a device both define
+			var ex []int
+			for i, ph := range p.ConfPhys {
+				if p.Exists[ph] {
+					ex = append(ex, i)
+				}
+			}
+			if len(ex) >= 2 && p.ConfPhys[ex[0]] != p.ConfPhys[ex[1]] {
+				a, b := ex[0], ex[1]
+				for _, i := range []int{a, b} {
+					must(os.WriteFile(filepath.Join(p.Phys[p.ConfPhys[i]], "zz-dup.json"), []byte(fmt.Sprintf(`{"cdiVersion":"0.6.0","kind":"dup.org/dev","devices":[{"name":"d","containerEdits":{"env":["FROM=%d"]}}]}`, i)), 0o644))
+				}
+				p.Conf = []string{p.Conf[a], p.Conf[b], p.Conf[a]}
+				c.Count("populations_with_a_directory_listed_around_another", 1)
 			}
 		}
 		// reference
